@@ -16,6 +16,62 @@ INDEX_WRITERS = {
 TAXA_GROWERS = {"add_taxon", "__init__", "__deepcopy__"}
 
 
+def derived_cache_rule(index, rep, rid, cls_q):
+    """Lazily computed caches of a class (`if self.X is None: self.X = f(self.Y)`) must be dropped by
+    every function that stores the source field Y on instances of the class - including functions the
+    class INHERITS (an override that is removed silently re-exposes the base class's setter)."""
+    ci = index.klass(cls_q)
+    caches = {}     # cache field -> set(source fields)
+    for m in ci.methods.values():
+        for iff in walk_no_nested(m.node):
+            if isinstance(iff, ast.If):
+                cp = compare_parts(iff.test)
+                if cp and cp[1] == "Is" and is_none(cp[2]) and isinstance(cp[0], ast.Attribute) and norm(cp[0].value) == "self":
+                    x = cp[0].attr
+                    for st in iff.body:
+                        if isinstance(st, ast.Assign) and norm(st.targets[0]) == "self." + x:
+                            srcs = {a.attr for a in ast.walk(st.value) if isinstance(a, ast.Attribute) and norm(a.value) == "self" and a.attr != x}
+                            if srcs:
+                                caches.setdefault(x, set()).update(srcs)
+    n = 0
+    # functions in effect for instances of the class: own and inherited methods (by name through the MRO),
+    # and the accessor functions of the properties in effect (bound where the property was created)
+    eff = {}
+    for c in index.mro(ci):
+        for k, v in c.methods.items():
+            eff.setdefault(k, v)
+    prop_seen = set()
+    for c in index.mro(ci):
+        for pname, acc in c.properties.items():
+            if pname in prop_seen:
+                continue
+            prop_seen.add(pname)
+            for a in acc:
+                if a and a in c.methods:
+                    eff[("prop", pname, a)] = c.methods[a]
+        # a class-level name that shadows a base property
+        for k in c.class_attrs:
+            prop_seen.add(k)
+    for x, srcs in sorted(caches.items()):
+        done = set()
+        for key, f in sorted(eff.items(), key=lambda kv: str(kv[0])):
+            if f.name in ("__init__", "__deepcopy__", "__copy__", "__setstate__") or f.qualname in done:
+                continue
+            done.add(f.qualname)
+            ws = [w for w in writes_in(f.node) if w.kind in ("store", "augstore") and w.base is not None and norm(w.base) == "self" and w.attr in srcs]
+            for w in ws:
+                n += 1
+                cfg = cfg_of(f)
+                wn = stmt_nodes(cfg, w.stmt)
+                resets = lambda nd: nd.kind == "stmt" and isinstance(nd.ast, ast.Assign) and norm(nd.ast.targets[0]) == "self." + x
+                ok = bool(wn) and (cfg.must_pass(wn[0], resets)[0] or cfg.dominated_by(wn[0], resets, follow_exc=False))
+                rep.check(ok, rid, f.qualname, "store to self.%s without dropping the cache self.%s" % (w.attr, x), fn_where(f, w.stmt),
+                          "%s (in effect for %s): the store to self.%s is accompanied by self.%s = None" % (f.qualname.rsplit(".", 2)[-2] + "." + f.name, ci.name, w.attr, x),
+                          "%s - the function in effect for %s instances%s - stores self.%s without resetting self.%s, which %s computes lazily from it: after a relabel the cached value still answers for the old label, so case-insensitive lookup, require_taxon and label-based unification find the taxon under its old label and miss it under the new one"
+                          % (f.qualname, ci.name, "" if f.cls is ci else " (inherited from %s: %s has no override in effect)" % (f.cls.name, ci.name), w.attr, x, ci.name))
+    return n, caches
+
+
 def folding_rule(index, rep, rid):
     folds = {}
     fold_sites = [TM + ".Taxon._get_lower_cased_label@", TNS + "._lookup_label", "dendropy.dataio.nexusreader.NexusReader._parse_taxlabels_statement"]
@@ -131,173 +187,181 @@ def run(index, rep, tier):
     index_state_rules(index, rep, {})
 
     # ---- R10.4
-    rm = index.function(TNS + ".remove_taxon")
-    cfg = cfg_of(rm)
-    need = {
-        "_taxa": ("remove", "taxon"),
-        "_taxon_accession_index_map": ("pop", "taxon"),
-        "_taxon_bitmask_map": ("pop", "taxon"),
-    }
-    for attr, (meth, arg) in need.items():
-        def hit(n, attr=attr, meth=meth, arg=arg):
-            return any(isinstance(c.func, ast.Attribute) and c.func.attr in (meth, "__delitem__", "discard") and norm(c.func.value) == "self." + attr
-                       and c.args and norm(c.args[0]) == arg for c in node_calls(n)) or \
-                (n.kind == "stmt" and isinstance(n.ast, ast.Delete) and any(isinstance(t, ast.Subscript) and norm(t.value) == "self." + attr and norm(t.slice) == arg for t in n.ast.targets))
-        # paths that raise before doing anything are fine: only normal exits count
-        okp, wit = cfg.must_pass(cfg.entry, hit)
-        rep.check(okp, "R10.4", rm.qualname, "release of " + attr, fn_where(rm),
-                  "remove_taxon releases the taxon's entry in %s on every normal path" % attr,
-                  "remove_taxon can return without removing the taxon from `%s`: a removed taxon keeps its bit / stays a member" % attr)
-    pops = [c for c in calls_in(rm.node) if isinstance(c.func, ast.Attribute) and c.func.attr in ("pop", "remove") and "self._" in norm(c.func.value)]
-    idxvars = {norm(n.targets[0]) for n in walk_no_nested(rm.node) if isinstance(n, ast.Assign) and isinstance(n.value, ast.Call)
-               and call_name(n.value) == "pop" and n.value.args and norm(n.value.args[0]) == "taxon"}
-    for c in pops:
-        a0 = norm(c.args[0]) if c.args else None
-        ok = a0 == "taxon" or a0 in idxvars
-        rep.check(ok, "R10.4", rm.qualname, norm(c), fn_where(rm, c), "remove_taxon touches only the removed taxon's entries: %s" % norm(c),
-                  "remove_taxon removes the entry keyed by `%s`, which is not the removed taxon or its own index: another member loses its bit" % a0)
-    revpop = [c for c in pops if norm(c.func.value) == "self._accession_index_taxon_map"]
-    rep.check(bool(revpop), "R10.4", rm.qualname, "release of _accession_index_taxon_map", fn_where(rm),
-              "remove_taxon releases the index -> taxon entry", "remove_taxon never removes the index -> taxon entry: renderings still name the removed taxon")
+    with rep.section("R10.4"):
+        rm = index.function(TNS + ".remove_taxon")
+        cfg = cfg_of(rm)
+        need = {
+            "_taxa": ("remove", "taxon"),
+            "_taxon_accession_index_map": ("pop", "taxon"),
+            "_taxon_bitmask_map": ("pop", "taxon"),
+        }
+        for attr, (meth, arg) in need.items():
+            def hit(n, attr=attr, meth=meth, arg=arg):
+                return any(isinstance(c.func, ast.Attribute) and c.func.attr in (meth, "__delitem__", "discard") and norm(c.func.value) == "self." + attr
+                           and c.args and norm(c.args[0]) == arg for c in node_calls(n)) or \
+                    (n.kind == "stmt" and isinstance(n.ast, ast.Delete) and any(isinstance(t, ast.Subscript) and norm(t.value) == "self." + attr and norm(t.slice) == arg for t in n.ast.targets))
+            # paths that raise before doing anything are fine: only normal exits count
+            okp, wit = cfg.must_pass(cfg.entry, hit)
+            rep.check(okp, "R10.4", rm.qualname, "release of " + attr, fn_where(rm),
+                      "remove_taxon releases the taxon's entry in %s on every normal path" % attr,
+                      "remove_taxon can return without removing the taxon from `%s`: a removed taxon keeps its bit / stays a member" % attr)
+        pops = [c for c in calls_in(rm.node) if isinstance(c.func, ast.Attribute) and c.func.attr in ("pop", "remove") and "self._" in norm(c.func.value)]
+        idxvars = {norm(n.targets[0]) for n in walk_no_nested(rm.node) if isinstance(n, ast.Assign) and isinstance(n.value, ast.Call)
+                   and call_name(n.value) == "pop" and n.value.args and norm(n.value.args[0]) == "taxon"}
+        for c in pops:
+            a0 = norm(c.args[0]) if c.args else None
+            ok = a0 == "taxon" or a0 in idxvars
+            rep.check(ok, "R10.4", rm.qualname, norm(c), fn_where(rm, c), "remove_taxon touches only the removed taxon's entries: %s" % norm(c),
+                      "remove_taxon removes the entry keyed by `%s`, which is not the removed taxon or its own index: another member loses its bit" % a0)
+        revpop = [c for c in pops if norm(c.func.value) == "self._accession_index_taxon_map"]
+        rep.check(bool(revpop), "R10.4", rm.qualname, "release of _accession_index_taxon_map", fn_where(rm),
+                  "remove_taxon releases the index -> taxon entry", "remove_taxon never removes the index -> taxon entry: renderings still name the removed taxon")
 
     # ---- R10.5
-    for name in ("sort", "reverse"):
-        fi = index.function(TNS + "." + name)
-        ws = {w.attr for w in writes_in(fi.node) if isinstance(w.base, ast.Name) and w.base.id == "self"}
-        calls = {call_name(c) for c in calls_in(fi.node) if isinstance(c.func, ast.Attribute) and isinstance(c.func.value, ast.Name) and c.func.value.id == "self"}
-        ok = ws <= {"_taxa"} and not calls
-        rep.check(ok, "R10.5", fi.qualname, "write set %s calls %s" % (sorted(ws), sorted(calls)), fn_where(fi),
-                  "%s writes only _taxa" % name, "%s writes %s / calls %s: an order operation must not touch anything but the member list" % (fi.qualname, sorted(ws - {"_taxa"}), sorted(calls)))
+    with rep.section("R10.5"):
+        for name in ("sort", "reverse"):
+            fi = index.function(TNS + "." + name)
+            ws = {w.attr for w in writes_in(fi.node) if isinstance(w.base, ast.Name) and w.base.id == "self"}
+            calls = {call_name(c) for c in calls_in(fi.node) if isinstance(c.func, ast.Attribute) and isinstance(c.func.value, ast.Name) and c.func.value.id == "self"}
+            ok = ws <= {"_taxa"} and not calls
+            rep.check(ok, "R10.5", fi.qualname, "write set %s calls %s" % (sorted(ws), sorted(calls)), fn_where(fi),
+                      "%s writes only _taxa" % name, "%s writes %s / calls %s: an order operation must not touch anything but the member list" % (fi.qualname, sorted(ws - {"_taxa"}), sorted(calls)))
 
     # ---- R10.6
-    nbit = 0
-    for fi in list(index.functions.values()):
-        for loop in walk_no_nested(fi.node):
-            if not isinstance(loop, (ast.While, ast.For)):
-                continue
-            has_and1 = any(isinstance(n, ast.BinOp) and isinstance(n.op, ast.BitAnd) and isinstance(n.right, ast.Constant) and n.right.value == 1 for n in ast.walk(loop))
-            has_shift = any((isinstance(n, ast.BinOp) and isinstance(n.op, ast.RShift)) or (isinstance(n, ast.AugAssign) and isinstance(n.op, ast.RShift)) for n in ast.walk(loop))
-            if not (has_and1 and has_shift):
-                continue
-            counters = {norm(n.target) for n in ast.walk(loop) if isinstance(n, ast.AugAssign) and isinstance(n.op, ast.Add) and const_value(n.value) == 1}
-            if isinstance(loop, ast.For):
-                counters |= {x.id for x in ast.walk(loop.target) if isinstance(x, ast.Name)}
-            for n in ast.walk(loop):
-                if isinstance(n, ast.Subscript) and isinstance(n.ctx, ast.Load) and norm(n.slice) in counters:
-                    nbit += 1
-                    ok = norm(n.value).endswith("_accession_index_taxon_map")
-                    rep.check(ok, "R10.6", fi.qualname, "bit position indexes " + norm(n.value), fn_where(fi, n),
-                              "%s: bit i selects %s[i]" % (fi.qualname, norm(n.value)),
-                              "%s walks a bitmask bit by bit and picks the item for bit i as `%s[i]` (list position), not through the accession index: after a removal, sort or reverse the rendering names the wrong taxa"
-                              % (fi.qualname, norm(n.value)))
-    rep.floor("R10.6", "bit-position lookups", 1, nbit)
-    # namespace-level renderers delegate
-    for q, callee in ((TNS + ".bitmask_as_newick_string", "bitmask_as_newick_string"), (TNS + ".split_as_newick_string", "bitmask_as_newick_string"),
-                      ("dendropy.datamodel.treemodel._bipartition.Bipartition.leafset_taxa", "bitmask_taxa_list")):
-        fi = index.function(q)
-        ok = any(call_name(c) == callee for c in calls_in(fi.node))
-        rep.check(ok, "R10.6", fi.qualname, "delegates to " + callee, fn_where(fi), "%s delegates to %s" % (fi.name, callee),
-                  "%s no longer delegates to %s" % (fi.qualname, callee))
-    np_ = index.function("dendropy.dataio.nexusprocessing.bitmask_as_newick_string")
-    uses_pos = [n for n in walk_no_nested(np_.node) if isinstance(n, ast.Call) and call_name(n) == "enumerate"]
-    membership = [n for n in walk_no_nested(np_.node) if isinstance(n, ast.BinOp) and isinstance(n.op, ast.BitAnd)]
-    rep.check(bool(membership) and not uses_pos, "R10.6", np_.qualname, "membership tests: %s" % [norm(m) for m in membership], fn_where(np_),
-              "nexusprocessing.bitmask_as_newick_string decides membership with %s" % [norm(m) for m in membership],
-              "nexusprocessing.bitmask_as_newick_string has no bitwise membership test / enumerates positions")
+    with rep.section("R10.6"):
+        nbit = 0
+        for fi in list(index.functions.values()):
+            for loop in walk_no_nested(fi.node):
+                if not isinstance(loop, (ast.While, ast.For)):
+                    continue
+                has_and1 = any(isinstance(n, ast.BinOp) and isinstance(n.op, ast.BitAnd) and isinstance(n.right, ast.Constant) and n.right.value == 1 for n in ast.walk(loop))
+                has_shift = any((isinstance(n, ast.BinOp) and isinstance(n.op, ast.RShift)) or (isinstance(n, ast.AugAssign) and isinstance(n.op, ast.RShift)) for n in ast.walk(loop))
+                if not (has_and1 and has_shift):
+                    continue
+                counters = {norm(n.target) for n in ast.walk(loop) if isinstance(n, ast.AugAssign) and isinstance(n.op, ast.Add) and const_value(n.value) == 1}
+                if isinstance(loop, ast.For):
+                    counters |= {x.id for x in ast.walk(loop.target) if isinstance(x, ast.Name)}
+                for n in ast.walk(loop):
+                    if isinstance(n, ast.Subscript) and isinstance(n.ctx, ast.Load) and norm(n.slice) in counters:
+                        nbit += 1
+                        ok = norm(n.value).endswith("_accession_index_taxon_map")
+                        rep.check(ok, "R10.6", fi.qualname, "bit position indexes " + norm(n.value), fn_where(fi, n),
+                                  "%s: bit i selects %s[i]" % (fi.qualname, norm(n.value)),
+                                  "%s walks a bitmask bit by bit and picks the item for bit i as `%s[i]` (list position), not through the accession index: after a removal, sort or reverse the rendering names the wrong taxa"
+                                  % (fi.qualname, norm(n.value)))
+        rep.floor("R10.6", "bit-position lookups", 1, nbit)
+        # namespace-level renderers delegate
+        for q, callee in ((TNS + ".bitmask_as_newick_string", "bitmask_as_newick_string"), (TNS + ".split_as_newick_string", "bitmask_as_newick_string"),
+                          ("dendropy.datamodel.treemodel._bipartition.Bipartition.leafset_taxa", "bitmask_taxa_list")):
+            fi = index.function(q)
+            ok = any(call_name(c) == callee for c in calls_in(fi.node))
+            rep.check(ok, "R10.6", fi.qualname, "delegates to " + callee, fn_where(fi), "%s delegates to %s" % (fi.name, callee),
+                      "%s no longer delegates to %s" % (fi.qualname, callee))
+        np_ = index.function("dendropy.dataio.nexusprocessing.bitmask_as_newick_string")
+        uses_pos = [n for n in walk_no_nested(np_.node) if isinstance(n, ast.Call) and call_name(n) == "enumerate"]
+        membership = [n for n in walk_no_nested(np_.node) if isinstance(n, ast.BinOp) and isinstance(n.op, ast.BitAnd)]
+        rep.check(bool(membership) and not uses_pos, "R10.6", np_.qualname, "membership tests: %s" % [norm(m) for m in membership], fn_where(np_),
+                  "nexusprocessing.bitmask_as_newick_string decides membership with %s" % [norm(m) for m in membership],
+                  "nexusprocessing.bitmask_as_newick_string has no bitwise membership test / enumerates positions")
 
     # ---- R10.7
-    lk = index.function(TNS + "._lookup_label")
-    ncall = 0
-    for fi in index.methods_of(TNS):
-        for c in calls_in(fi.node):
-            if call_name(c) != "_lookup_label":
-                continue
-            ncall += 1
-            fm = get_kwarg(c, "first_match_only")
-            if fm is None and len(c.args) >= 3:
-                fm = c.args[2]
-            # find the variable receiving the result
-            pm = parent_map(fi.node)
-            par = pm.get(c)
-            res = norm(par.targets[0]) if isinstance(par, ast.Assign) else None
-            iterated = []
-            if res:
-                for n in walk_no_nested(fi.node):
-                    if isinstance(n, ast.For) and norm(n.iter) == res:
-                        iterated.append(n)
-            if fm is None or (isinstance(fm, ast.Constant) and fm.value is False):
-                rep.ob("R10.7", fn_where(fi, c), "%s asks for a list (first_match_only false)" % fi.name, True)
-                continue
-            if isinstance(fm, ast.Constant) and fm.value is True:
-                rep.check(not iterated, "R10.7", fi.qualname, "single-taxon result iterated", fn_where(fi, c),
-                          "%s asks for the first match and does not iterate it" % fi.name,
-                          "%s asks _lookup_label for a single Taxon (first_match_only=True) and then iterates the result" % fi.qualname)
-                continue
-            # forwarded variable: every iteration must be on the flag-false side of a test of that variable
-            fmv = norm(fm)
-            cfg = cfg_of(fi)
-            ok = True
-            for loop in iterated:
-                ln = [n for n in cfg.nodes if n.kind == "forinit" and n.stmt is loop]
-                reach = cfg.reach([cfg.entry], follow_exc=False,
-                                  edge_ok=lambda s, l, d: not (s.kind == "test" and norm(s.ast) == fmv and l == "f"))
-                # reachable with the flag TRUE?  then a Taxon is iterated
-                # (paths through the test's true edge are allowed only if they rebind the result)
-                for n in ln:
-                    if n in reach:
-                        rebinds = [x for x in cfg.nodes if x.kind == "stmt" and isinstance(x.ast, ast.Assign) and norm(x.ast.targets[0]) == res and x.ast.value is not c]
-                        if rebinds:
-                            rid = {x.id for x in rebinds}
-                            reach2 = cfg.reach([cfg.entry], avoid=lambda m: m.id in rid, follow_exc=False,
-                                               edge_ok=lambda s, l, d: not (s.kind == "test" and norm(s.ast) == fmv and l == "f"))
-                            if n not in reach2:
-                                continue
-                        ok = False
-            rep.check(ok, "R10.7", fi.qualname, "forwarded first_match_only, result iterated", fn_where(fi, c),
-                      "%s forwards first_match_only=%s and consumes the matching shape" % (fi.name, fmv),
-                      "%s forwards the caller's `%s` to _lookup_label and then iterates the result unconditionally: with %s=True the result is a single Taxon and the loop raises TypeError" % (fi.qualname, fmv, fmv))
-    rep.floor("R10.7", "callers of _lookup_label", 8, ncall)
-    # the callee's shape
-    rets = [n for n in walk_no_nested(lk.node) if isinstance(n, ast.Return)]
-    cfg = cfg_of(lk)
-    for r in rets:
-        v = norm(r.value) if r.value is not None else "None"
-        rn = stmt_nodes(cfg, r)[0]
-        under_flag = cfg.dominated_by(rn, lambda n: n.kind == "test" and norm(n.ast) == "first_match_only")
-        if v == "taxon":
-            ok = under_flag
-        else:
-            ok = True
-        rep.check(ok, "R10.7", lk.qualname, "return %s" % v, fn_where(lk, r), "_lookup_label returns `%s`%s" % (v, " under first_match_only" if under_flag else ""),
-                  "_lookup_label returns a single taxon outside the first_match_only test")
+    with rep.section("R10.7"):
+        lk = index.function(TNS + "._lookup_label")
+        ncall = 0
+        for fi in index.methods_of(TNS):
+            for c in calls_in(fi.node):
+                if call_name(c) != "_lookup_label":
+                    continue
+                ncall += 1
+                fm = get_kwarg(c, "first_match_only")
+                if fm is None and len(c.args) >= 3:
+                    fm = c.args[2]
+                # find the variable receiving the result
+                pm = parent_map(fi.node)
+                par = pm.get(c)
+                res = norm(par.targets[0]) if isinstance(par, ast.Assign) else None
+                iterated = []
+                if res:
+                    for n in walk_no_nested(fi.node):
+                        if isinstance(n, ast.For) and norm(n.iter) == res:
+                            iterated.append(n)
+                if fm is None or (isinstance(fm, ast.Constant) and fm.value is False):
+                    rep.ob("R10.7", fn_where(fi, c), "%s asks for a list (first_match_only false)" % fi.name, True)
+                    continue
+                if isinstance(fm, ast.Constant) and fm.value is True:
+                    rep.check(not iterated, "R10.7", fi.qualname, "single-taxon result iterated", fn_where(fi, c),
+                              "%s asks for the first match and does not iterate it" % fi.name,
+                              "%s asks _lookup_label for a single Taxon (first_match_only=True) and then iterates the result" % fi.qualname)
+                    continue
+                # forwarded variable: every iteration must be on the flag-false side of a test of that variable
+                fmv = norm(fm)
+                cfg = cfg_of(fi)
+                ok = True
+                for loop in iterated:
+                    ln = [n for n in cfg.nodes if n.kind == "forinit" and n.stmt is loop]
+                    reach = cfg.reach([cfg.entry], follow_exc=False,
+                                      edge_ok=lambda s, l, d: not (s.kind == "test" and norm(s.ast) == fmv and l == "f"))
+                    # reachable with the flag TRUE?  then a Taxon is iterated
+                    # (paths through the test's true edge are allowed only if they rebind the result)
+                    for n in ln:
+                        if n in reach:
+                            rebinds = [x for x in cfg.nodes if x.kind == "stmt" and isinstance(x.ast, ast.Assign) and norm(x.ast.targets[0]) == res and x.ast.value is not c]
+                            if rebinds:
+                                rid = {x.id for x in rebinds}
+                                reach2 = cfg.reach([cfg.entry], avoid=lambda m: m.id in rid, follow_exc=False,
+                                                   edge_ok=lambda s, l, d: not (s.kind == "test" and norm(s.ast) == fmv and l == "f"))
+                                if n not in reach2:
+                                    continue
+                            ok = False
+                rep.check(ok, "R10.7", fi.qualname, "forwarded first_match_only, result iterated", fn_where(fi, c),
+                          "%s forwards first_match_only=%s and consumes the matching shape" % (fi.name, fmv),
+                          "%s forwards the caller's `%s` to _lookup_label and then iterates the result unconditionally: with %s=True the result is a single Taxon and the loop raises TypeError" % (fi.qualname, fmv, fmv))
+        rep.floor("R10.7", "callers of _lookup_label", 8, ncall)
+        # the callee's shape
+        rets = [n for n in walk_no_nested(lk.node) if isinstance(n, ast.Return)]
+        cfg = cfg_of(lk)
+        for r in rets:
+            v = norm(r.value) if r.value is not None else "None"
+            rn = stmt_nodes(cfg, r)[0]
+            under_flag = cfg.dominated_by(rn, lambda n: n.kind == "test" and norm(n.ast) == "first_match_only")
+            if v == "taxon":
+                ok = under_flag
+            else:
+                ok = True
+            rep.check(ok, "R10.7", lk.qualname, "return %s" % v, fn_where(lk, r), "_lookup_label returns `%s`%s" % (v, " under first_match_only" if under_flag else ""),
+                      "_lookup_label returns a single taxon outside the first_match_only test")
 
     # ---- R10.9 the call's setting overrides the namespace's
-    rep.rule("R10.9", "case sensitivity: a function taking is_case_sensitive consults the namespace's own setting only when the argument is None; label folding uses one and the same method everywhere")
-    npo = 0
-    for fi in index.methods_of(TNS):
-        if "is_case_sensitive" not in fi.all_params:
-            continue
-        cfg = cfg_of(fi)
-        for n in cfg.nodes:
-            if n.kind == "test" and norm(n.ast) == "self.is_case_sensitive":
-                npo += 1
-                reach = cfg.reach([cfg.entry], follow_exc=False,
-                                  edge_ok=lambda s_, l_, d_: not (s_.kind == "test" and norm(s_.ast) == "is_case_sensitive is None" and l_ == "t"))
-                ok = n not in reach
-                rep.check(ok, "R10.9", fi.qualname, "namespace setting consulted although the call gave one", fn_where(fi, n.stmt),
-                          "%s consults self.is_case_sensitive only under `is_case_sensitive is None`" % fi.name,
-                          "%s consults the namespace's is_case_sensitive on a path where the caller's explicit is_case_sensitive was not None: an explicit False on a case-sensitive namespace (or True on an insensitive one) is ignored and lookups return the wrong members" % fi.qualname)
-    rep.floor("R10.9", "tests of self.is_case_sensitive in functions taking the argument", 2, npo)
-    folding_rule(index, rep, "R10.9")
+    with rep.section("R10.9 the call's setting overrides the namespace's"):
+        rep.rule("R10.9", "case sensitivity: a function taking is_case_sensitive consults the namespace's own setting only when the argument is None; label folding uses one and the same method everywhere")
+        npo = 0
+        for fi in index.methods_of(TNS):
+            if "is_case_sensitive" not in fi.all_params:
+                continue
+            cfg = cfg_of(fi)
+            for n in cfg.nodes:
+                if n.kind == "test" and norm(n.ast) == "self.is_case_sensitive":
+                    npo += 1
+                    reach = cfg.reach([cfg.entry], follow_exc=False,
+                                      edge_ok=lambda s_, l_, d_: not (s_.kind == "test" and norm(s_.ast) == "is_case_sensitive is None" and l_ == "t"))
+                    ok = n not in reach
+                    rep.check(ok, "R10.9", fi.qualname, "namespace setting consulted although the call gave one", fn_where(fi, n.stmt),
+                              "%s consults self.is_case_sensitive only under `is_case_sensitive is None`" % fi.name,
+                              "%s consults the namespace's is_case_sensitive on a path where the caller's explicit is_case_sensitive was not None: an explicit False on a case-sensitive namespace (or True on an insensitive one) is ignored and lookups return the wrong members" % fi.qualname)
+        rep.floor("R10.9", "tests of self.is_case_sensitive in functions taking the argument", 2, npo)
+        folding_rule(index, rep, "R10.9")
+        nc, caches = derived_cache_rule(index, rep, "R10.9", TM + ".Taxon")
+        rep.floor("R10.9", "stores to a field that feeds a lazily computed cache of Taxon (%s)" % sorted(caches), 1, nc)
 
     # ---- R10.8
-    for q in (TM + ".Taxon.__hash__", TM + ".Taxon.__eq__"):
-        fi = index.function(q)
-        reads = sorted({a for a, b, _ in attr_reads(fi.node) if isinstance(b, ast.Name) and b.id in ("self", "other")})
-        rep.check(not reads, "R10.8", fi.qualname, "reads %s" % reads, fn_where(fi), "%s reads no instance attribute (identity-based)" % fi.name,
-                  "%s depends on instance state %s: relabelling a member changes its hash/equality, so it loses (or shares) its accession index" % (fi.qualname, reads))
-    # TaxonNamespace.__contains__ goes through the index map (not label equality)
-    fi = index.function(TNS + ".__contains__")
-    ok = any(a in ("_taxon_accession_index_map", "_taxa") for a, b, _ in attr_reads(fi.node))
-    rep.check(ok, "R10.8", fi.qualname, "membership source", fn_where(fi), "`taxon in namespace` consults the index map / member list",
-              "TaxonNamespace.__contains__ no longer consults the index map or member list")
+    with rep.section("R10.8"):
+        for q in (TM + ".Taxon.__hash__", TM + ".Taxon.__eq__"):
+            fi = index.function(q)
+            reads = sorted({a for a, b, _ in attr_reads(fi.node) if isinstance(b, ast.Name) and b.id in ("self", "other")})
+            rep.check(not reads, "R10.8", fi.qualname, "reads %s" % reads, fn_where(fi), "%s reads no instance attribute (identity-based)" % fi.name,
+                      "%s depends on instance state %s: relabelling a member changes its hash/equality, so it loses (or shares) its accession index" % (fi.qualname, reads))
+        # TaxonNamespace.__contains__ goes through the index map (not label equality)
+        fi = index.function(TNS + ".__contains__")
+        ok = any(a in ("_taxon_accession_index_map", "_taxa") for a, b, _ in attr_reads(fi.node))
+        rep.check(ok, "R10.8", fi.qualname, "membership source", fn_where(fi), "`taxon in namespace` consults the index map / member list",
+                  "TaxonNamespace.__contains__ no longer consults the index map or member list")
